@@ -121,3 +121,37 @@ Definition sc_directives (acct : account) (rows : list (list str)) : list direct
   map (fun r => charge_directive acct (sc_fact r) (sc_text r)) (filter sc_is_booking rows).
 Definition sc_statement_output (acct : account) (recs : list (list str)) : option str :=
   if sc_statement_wf recs then Some (print_directives (sc_directives acct recs)) else None.
+
+(* ---------------------------------------------------------------- ch.cumulus *)
+(* The records of a statement are read as entries (Spec/ImpSpecA.v cum_entry), from the last record
+   to the first: a comment row (only the third of five fields filled) belongs to the booking or
+   rounding row before it; any other record is a booking row, a rounding row or an ignored record,
+   whichever it is well-formed as (an ignored record cannot have comment rows).  The first
+   component: the comment rows not yet attached to a row. *)
+Fixpoint cum_parse (recs : list (list str)) : option (list str * list cum_entry) :=
+  match recs with
+  | [] => Some ([], [])
+  | r :: rest =>
+    match cum_parse rest with
+    | None => None
+    | Some (cs, es) =>
+      if cum_is_comment r then Some (field r 2 :: cs, es)
+      else if cum_wf_entry (CumBooking r cs) then Some ([], CumBooking r cs :: es)
+      else if cum_wf_entry (CumRounding r cs) then Some ([], CumRounding r cs :: es)
+      else match cs with
+           | [] => if cum_wf_entry (CumIgnored r) then Some ([], CumIgnored r :: es) else None
+           | _ :: _ => None
+           end
+    end
+  end.
+(* a statement does not begin with a comment row *)
+Definition cum_entries (recs : list (list str)) : option (list cum_entry) :=
+  match cum_parse recs with Some ([], es) => Some es | _ => None end.
+Definition cum_statement_wf (recs : list (list str)) : bool := is_some (cum_entries recs).
+Definition cum_entry_directives (acct : account) (e : cum_entry) : list directive :=
+  map (fun ft => change_directive acct (fst ft) (snd ft)) (combine (cum_facts e) (cum_texts e)).
+Definition cum_statement_output (acct : account) (recs : list (list str)) : option str :=
+  match cum_entries recs with
+  | Some es => Some (print_directives (flat_map (cum_entry_directives acct) es))
+  | None => None
+  end.
